@@ -88,6 +88,7 @@ Ts4 == [ts_type |-> 7, proto |-> 6, sport |-> 0, eport |-> 65535, saddr |-> V4a,
 Ts4p == [ts_type |-> 7, proto |-> 17, sport |-> 500, eport |-> 500, saddr |-> V4a, eaddr |-> V4a]
 Ts6 == [ts_type |-> 8, proto |-> 0, sport |-> 0, eport |-> 65535, saddr |-> V6a, eaddr |-> V6b]
 N16 == [i \in 1..16 |-> i]   N32 == [i \in 1..32 |-> 200 + (i % 50)]
+N255 == [i \in 1..255 |-> i % 251]   N256 == [i \in 1..256 |-> (i * 7) % 256]          \* 3.9: nonce data of 16 .. 256 octets - both ends of the range
 Payloads ==
   { P(33, FALSE, [proposals |-> <<p>>]) : p \in Props } \cup
   { P(33, FALSE, [proposals |-> <<p, q>>]) : p \in {x \in Props : x.proto = 3 /\ x.spi = <<1, 2, 3, 4>>}, q \in {x \in Props : x.proto = 2 /\ x.spi = <<1, 2, 3, 4>> /\ Len(x.transforms) = 2} } \cup
@@ -99,7 +100,7 @@ Payloads ==
     P(35, FALSE, [id_type |-> 1, data |-> <<192, 168, 0, 1>>]), P(36, FALSE, [id_type |-> 2, data |-> <<98, 111, 98>>]),
     P(35, FALSE, [id_type |-> 3, data |-> <<97, 64, 98>>]), P(36, FALSE, [id_type |-> 5, data |-> V6a]), P(35, TRUE, [id_type |-> 11, data |-> <<1, 255>>]),
     P(39, FALSE, [method |-> 2, data |-> N32]), P(39, FALSE, [method |-> 1, data |-> N16]),
-    P(40, FALSE, [data |-> N16]), P(40, TRUE, [data |-> N32]),
+    P(40, FALSE, [data |-> N16]), P(40, TRUE, [data |-> N32]), P(40, FALSE, [data |-> N255]), P(40, FALSE, [data |-> N256]),
     P(41, FALSE, [proto |-> 0, spi |-> <<>>, ntype |-> 16391, data |-> <<>>]), P(41, FALSE, [proto |-> 3, spi |-> <<1, 2, 3, 4>>, ntype |-> 16393, data |-> <<>>]),
     P(41, FALSE, [proto |-> 0, spi |-> <<>>, ntype |-> 17, data |-> <<0, 19>>]), P(41, TRUE, [proto |-> 1, spi |-> A8, ntype |-> 16390, data |-> N32]),
     P(42, FALSE, [proto |-> 1, spis |-> <<>>]), P(42, FALSE, [proto |-> 3, spis |-> << <<1, 2, 3, 4>> >>]),
